@@ -33,3 +33,14 @@ chk("C14",
     "of both layers, all coupling patterns, numba installed or not; input layers are checked for mutation.",
     "Option values are opaque (no validation in the code either); aliasing of mutable values is checked by the harness only.",
     "Lean 4 proof over a dict-merge model + generated default tables; exhaustive differential correspondence", "8/C14")
+chk("C05",
+    "Lean theorems over the Newton-driver model for every observation stream of every length (any errors, residuals, NaNs): "
+    "iteration budget respected; converged flag => last iteration's errors and residual are numbers within the tolerances in "
+    "force and (automatic damping) the damping factor selected afterwards is 1; NaN never converges; damping factor stays in "
+    "{1, 0.1, 0.01}; run level: pipeflow returns iff every stage converged, and after any history a failed run leaves the net "
+    "not converged with no result numbers. The full clause 'the accepted step was undamped' is proved FALSE of the code by two "
+    "kernel-checked witnesses that are replayed on the real newton_raphson (known finding). The model is tied to the code by "
+    "driving the real newton_raphson with 13,850+ scripted iteration functions and by real success/failure histories.",
+    "Stage outcomes (what the linear solve produces) are inputs of the model; finiteness of supplied elements is checked by the "
+    "search only.",
+    "Lean 4 proof over a state-machine model of the Newton driver; scripted differential correspondence; history search", "8/C05")
